@@ -311,6 +311,113 @@ def disc_spec(d):
         paths["/p%d" % i] = {"post": o}
     return {"openapi": "3.1.0", "info": {"title": "t", "version": "1"}, "paths": paths, "components": {"schemas": S}}
 # ---------------------------------------------------------------------------------------------
+# C14 (use sites): WHERE and HOW a discriminated union is written.
+def site_union(st):
+    """the OpenAPI schema written at one use site.
+    st: {"kind":"oneOf"|"anyOf","members":[leaf…],"disc":None|{"prop","mapping":None|[[tag,leaf]…],"on":"inner"|"outer"},
+         "arr":bool, "wrap":None|"oneOf"|"anyOf", "typenull":bool}
+      plain            {kind:[refs], discriminator}
+      typenull         the same with "type":["object","null"]
+      arr              {type:array, items: U}
+      wrap             {wrap:[U', {type:null}]}   (U' = U or the array); discriminator on U ("inner") or on the wrapper ("outer")"""
+    u = {st["kind"]: [_ref(m) for m in st["members"]]}
+    dd = None
+    if st.get("disc"):
+        dd = {"propertyName": st["disc"]["prop"]}
+        if st["disc"].get("mapping") is not None:
+            dd["mapping"] = {t: "#/components/schemas/" + x for t, x in st["disc"]["mapping"]}
+    outer = bool(st.get("wrap")) and bool(dd) and st["disc"].get("on", "inner") == "outer"
+    if dd and not outer:
+        u["discriminator"] = dd
+    if st.get("typenull"):
+        u["type"] = ["object", "null"]
+    if st.get("arr"):
+        u = {"type": "array", "items": u}
+    if st.get("wrap"):
+        u = {st["wrap"]: [u, {"type": "null"}]}
+        if outer:
+            u["discriminator"] = dd
+    return u
+
+
+def site_leaf(l):
+    """{"name","tagname","tag":tagprop,"tagreq":bool,"ownreq":bool,"alt":None|propname}"""
+    props, req = {}, []
+    props[l["tagname"]] = _tagprop(l.get("tag") or ["plain"])
+    if l.get("tagreq", True):
+        req.append(l["tagname"])
+    if l.get("alt"):
+        props[l["alt"]] = {"type": "string"}
+    props[own_field(l["name"])] = {"type": "integer"}
+    if l.get("ownreq"):
+        req.append(own_field(l["name"]))
+    o = {"type": "object", "properties": props}
+    if req:
+        o["required"] = req
+    return o
+
+
+def site_spec(d):
+    """d: {"leaves":[leaf…], "sites":[site…]} -> (OpenAPI 3.1 document, [{"id","at":{…}}…]).
+    site = union description (see site_union) + {"id","pos":"named"|"field"|"io","holder","field"?, "req"?}
+      named: component `holder` IS the schema;  field: property `field` of the object component `holder`
+      (several sites may share a holder);  io: request body AND 200 response of an operation of its own.
+    Every holder component is the body and the response of one operation.  raises ValueError on dangling names."""
+    S, leaves = {}, set()
+    for l in d["leaves"]:
+        if l["name"] in S:
+            raise ValueError("duplicate leaf")
+        S[l["name"]] = site_leaf(l)
+        leaves.add(l["name"])
+    locs, holders, ios = [], [], []
+    for st in d["sites"]:
+        if not st["members"] or any(m not in leaves for m in st["members"]):
+            raise ValueError("dangling member")
+        if st.get("disc") and st["disc"].get("mapping") is not None and any(x not in leaves for _, x in st["disc"]["mapping"]):
+            raise ValueError("dangling mapping target")
+        sch = site_union(st)
+        h = st.get("holder")
+        if st["pos"] == "named":
+            if h in S:
+                raise ValueError("duplicate holder")
+            S[h] = sch
+            holders.append(h)
+            locs.append({"id": st["id"], "at": {"k": "named", "name": h}})
+        elif st["pos"] == "field":
+            if h in leaves or (h in S and "properties" not in S[h]):
+                raise ValueError("holder clash")
+            if h not in S:
+                S[h] = {"type": "object", "properties": {}}
+                holders.append(h)
+            if st["field"] in S[h]["properties"]:
+                raise ValueError("duplicate field")
+            S[h]["properties"][st["field"]] = sch
+            if st.get("req"):
+                S[h].setdefault("required", []).append(st["field"])
+            locs.append({"id": st["id"], "at": {"k": "field", "holder": h, "field": st["field"]}})
+        elif st["pos"] == "io":
+            ios.append((st, sch))
+        else:
+            raise ValueError(st["pos"])
+    paths, n = {}, 0
+
+    def op(schema):
+        nonlocal n
+        if n >= 9:
+            raise ValueError("too many operations")
+        oid = chr(97 + n)
+        paths["/p%d" % n] = {"post": {"operationId": oid, "requestBody": {"content": {"application/json": {"schema": schema}}},
+                                      "responses": {"200": {"description": "d", "content": {"application/json": {"schema": schema}}}}}}
+        n += 1
+        return oid
+    for h in holders:
+        op(_ref(h))
+    for st, sch in ios:
+        oid = op(sch)
+        locs.append({"id": st["id"] + ".b", "at": {"k": "body", "op": oid}})
+        locs.append({"id": st["id"] + ".r", "at": {"k": "resp", "op": oid}})
+    return ({"openapi": "3.1.0", "info": {"title": "t", "version": "1"}, "paths": paths, "components": {"schemas": S}}, locs)
+# ---------------------------------------------------------------------------------------------
 # C16: specs of the validation fragment.  desc = {schemas:[{name,fields:[{name,req,s}]}], aliases:[{name,to}],
 # params:[{name,in,req,s}], body, resp, echo}; s = {"k":"prim","c":cons} | {"k":"arrP","c":cons,"items":cons} |
 # {"k":"arrR","c":cons,"to":name} | {"k":"ref","to":name}; numbers in cons travel as decimal strings.
